@@ -42,6 +42,7 @@ def run_check(prop: str, tier: str, root: str, seed: int, write: bool = True, on
                 ctx.selftest = selftest.run_for_property(prop, root, seed)
                 ctx.selftest["independent_seeded_changes"] = selftest.run_seeds_for_property(prop, root)
                 ctx.selftest["behaviour_preserving_rewrites"] = selftest.run_refactor_variants(prop, root)
+                ctx.selftest["behaviour_preserving_changes_by_agents"] = selftest.run_benign_for_property(prop, root)
             except Exception as e:
                 ctx.selftest = {"error": f"{type(e).__name__}: {e}"}
         expl = getattr(mod, "EXPLANATION", "static rule instances over the source")
